@@ -103,6 +103,15 @@ func (w *World) provablyNonEmpty(v ssa.Value, nonEmptyStr func(ssa.Value) bool, 
 			if s, ok := constString(x.Call.Args[1]); ok && s == "" && nonEmptyStr != nil && nonEmptyStr(x.Call.Args[0]) {
 				return true, "strings.Split(s, \"\") of a non-empty string"
 			}
+			if s, ok := constString(x.Call.Args[1]); ok && s != "" {
+				return true, "strings.Split with a non-empty separator yields at least one element"
+			}
+		case "(*regexp.Regexp).Split":
+			// documented: n == 0 yields nil; otherwise at least one element (the whole text when nothing matches,
+			// [""] for the empty text)
+			if n, ok := constInt(x.Call.Args[2]); ok && n != 0 {
+				return true, "(*Regexp).Split with n != 0 yields at least one element"
+			}
 		}
 	case *ssa.MakeSlice:
 		// make([]T, len(c)) of a provably non-empty c
